@@ -363,6 +363,18 @@ func (r *Raft) restore() error {
 		if err := file.Close(); err != nil {
 			return fmt.Errorf("could not close snapshot file: %w", err)
 		}
+
+		// A crash between the publication of a received snapshot and the discard of the log
+		// leaves a log that stops short of the snapshot's last entry or contradicts it. Finish
+		// what InstallSnapshot was doing: with such a log this node would reject every
+		// AppendEntries request ("log too short") and answer every snapshot with "nothing new".
+		entry, _ := r.log.GetEntry(metadata.LastIncludedIndex)
+		if r.log.LastIndex() < metadata.LastIncludedIndex ||
+			(entry != nil && entry.Term != metadata.LastIncludedTerm) {
+			if err := r.log.DiscardEntries(metadata.LastIncludedIndex, metadata.LastIncludedTerm); err != nil {
+				return fmt.Errorf("could not discard log entries: %w", err)
+			}
+		}
 	}
 
 	// Use the most recent configuration from the log.
